@@ -8,7 +8,7 @@
 import itertools
 import random
 
-from .. import algebra, tlc
+from .. import alggen, algebra, tlc
 from ..algebra import Universe, case_event, run_trace_leg, model_leg
 
 LEVEL = 'model_checking'
@@ -78,7 +78,24 @@ def run(check, tier, seed, scratch):
                 yield algebra.event(um, 'mergemeta/%s' % '-'.join(map(str, idx)), 'merge', sigs, lambda: signatures.merge(*sigs),
                                     case={'op': 'merge', 'ins': [UM[i] for i in idx]})
 
-    run_trace_leg(check, scratch, 'merge', gen, WANT, classify=classify)
+    # "renaming" families: three regular parameters on each side, every position either keeps the left name or has a name of its own on
+    # the right (a, b, c) x (x|a, y|b, z|c) -- names met again after a rename -- with defaults on suffixes and every star combination
+    import itertools
+    P = lambda n, d=False: {'n': n, 'k': 'pok', 'd': d, 'dv': 0, 'an': 0}      # noqa
+    stars = [[], [{'n': 'args', 'k': 'var', 'd': False, 'dv': 0, 'an': 0}], [{'n': 'kwargs', 'k': 'vkw', 'd': False, 'dv': 0, 'an': 0}],
+             [{'n': 'args', 'k': 'var', 'd': False, 'dv': 0, 'an': 0}, {'n': 'kwargs', 'k': 'vkw', 'd': False, 'dv': 0, 'an': 0}]]
+    UR = []
+    for names in itertools.product(*[(l, r) for l, r in zip('abc', 'xyz')]):
+        for ndef in (0, 1):
+            for st in stars:
+                UR.append([P(n, d=(k >= 3 - ndef)) for k, n in enumerate(names)] + st)
+    ur = Universe(UR)
+    rpairs = [(i, j) for i in range(len(UR)) for j in range(len(UR))]
+    rtriples = [tuple(rnd.randrange(len(UR)) for _ in range(3)) for _ in range(3000 if quick else 60000)]
+    if quick:
+        rpairs = random.Random(seed + 3).sample(rpairs, 2500)
+    renaming = alggen.chain(alggen.merge_tuples(ur, UR, rpairs, tag='merge-renaming2'), alggen.merge_tuples(ur, UR, rtriples, tag='merge-renaming3'))
+    run_trace_leg(check, scratch, 'merge', alggen.chain(gen, renaming), WANT, classify=classify)
     check.cov['exhaustive'] = True
     check.cov['rule'] = ('every ordered pair of the %d-signature universe (exhaustive), %d seeded random triples of the '
                          '580-signature universe, %d seeded pairs/triples of the 3 676-signature universe with default values and annotations, and every counterexample the model leg exported; an event is distinct by '
